@@ -3,7 +3,8 @@
 # the native search for a concrete failing input.  Real TapeRecorder + in-memory cassette + real Equalizer.
 # Metamorphic oracle of C08 / C09: the comparison a recording gets inside a SEQUENCE (id, verdict, message, expected, actual, flags) equals the
 # comparison it gets when it is run ALONE on a fresh recorder and a fresh equalizer; one comparison per id, in input order.
-# Bound: 5 recordings of 4 shapes (different input keys / numbers of outputs / an operation that raises / a comparison-data extractor whose key set
+# Plus the absolute oracle of C01: on unchanged code every recording replays Equal.
+# Bound: 5 recordings of 5 shapes (different input keys / numbers of outputs / an operation that raises / own + fallback key both recorded / a comparison-data extractor whose key set
 # varies per recording), every sequence of length <= 3 over them in-process, 3 sequences in dedicated-process mode with recycle rates 1 and 5,
 # behaviours: equal, different (edited replay code), player raises, extractor raises, comparator raises, comparator returns a bare status.
 # exit 0 clean, 1 violated (prints the case).
@@ -33,7 +34,18 @@ def make_service(recorder):
                 v = self.fetch('k2') + self.fetch('k3'); self.send(v); self.send(v * 2); return v
             if shape == 'c':
                 self.send(self.fetch('k4')); raise ValueError('operation failed')
+            if shape == 'e':
+                # an input with a fallback alias whose own key AND fallback key are both in the recording (the deprecated input is still called)
+                a = self.legacy_rate('x'); b = self.rate('x'); self.send([a, b]); return b
             v = self.fetch2(7, flag=True); return v
+
+        @recorder.intercept_input('legacy_rate')
+        def legacy_rate(self, k):
+            return 100
+
+        @recorder.intercept_input('rate', fallback_aliases=['legacy_rate'])
+        def rate(self, k):
+            return 7
 
         @recorder.intercept_input('fetch')
         def fetch(self, key):
@@ -49,7 +61,7 @@ def make_service(recorder):
     return Service
 
 
-SHAPES = ['a', 'b', 'c', 'd', 'a']
+SHAPES = ['a', 'b', 'c', 'd', 'e']
 IDS = []
 _rec0 = TapeRecorder(cassette); _rec0.enable_recording(); _S0 = make_service(_rec0)
 for sh in SHAPES:
@@ -73,7 +85,7 @@ def make_equalizer(ids, rec, config=None):
     def extractor(outputs):
         if any(BEHAVIOUR.get(r) == 'extractor' for r in CURRENT):
             raise RuntimeError('extractor failed')
-        return sorted((o.key, repr(o.value)) for o in outputs)
+        return sorted((o.key, repr(norm(o.value))) for o in outputs)
 
     def data_extractor(recording):
         sh = SHAPE_OF[recording.id]
@@ -91,6 +103,17 @@ def make_equalizer(ids, rec, config=None):
 
 
 CURRENT = []
+
+
+def norm(v):
+    """comparable form of an output value: exceptions by class"""
+    if isinstance(v, BaseException):
+        return ('exception', type(v).__name__)          # C01 promises the exception TYPE (the serializer does not keep the arguments)
+    if isinstance(v, dict):
+        return {k: norm(x) for k, x in v.items()}
+    if isinstance(v, (list, tuple)):
+        return [norm(x) for x in v]
+    return v
 
 
 def describe(c):
@@ -123,6 +146,9 @@ for behaviour, edit in SCEN:
     ref = {}
     for rid in IDS:
         CURRENT[:] = [rid]; ref[rid] = alone(rid)
+        if not behaviour and not edit and ref[rid]['status'] != 'Equal':
+            # C01: replay of a complete recording on unchanged, deterministic code reproduces the recorded run
+            fail({'what': 'replaying a recording on unchanged code does not reproduce the recorded outputs', 'shape': SHAPE_OF[rid], 'comparison': ref[rid]})
     for ln in (1, 2, 3):
         for seq in itertools.product(range(len(IDS)), repeat=ln):
             ids = [IDS[i] for i in seq]; n += 1
